@@ -199,6 +199,10 @@ def gen_ctx(rng: random.Random, m: onnx.ModelProto) -> dict:
         "node": {"used": list(dict.fromkeys([node] + node_used)), "counters": node_ctr},
         "_extra_var": var_used,
         "_extra_node": node_used,
+        "_adapt": {
+            "target": rng.choice([next((o.version for o in m.opset_import if o.domain in ("", "ai.onnx")), 17), 14, 17, 19, 21]),
+            "extraVarNames": rng.sample(["q0", "q1", "Add_9_C", f"{node}__zz", "Inline_99__x"], rng.randrange(0, 3)),
+        },
     }
 
 
@@ -306,6 +310,54 @@ def real_stages(m: onnx.ModelProto, call: dict, ctx: dict, lits: L.Lits) -> dict
         }
     except Exception as e:  # noqa: BLE001
         out["unobservable"] = f"reading the result of _Inline.to_onnx: {type(e).__name__}: {e}"
+        return out
+    # adapt_inline: conversion decision, re-rename in a fresh Scope, node.model restored
+    ad = ctx.get("_adapt")
+    if ad is not None:
+        try:
+            import spox._adapt as A
+
+            var_names = dict(zip(node.inputs.inputs, ctx["argNames"]))
+            var_names.update(zip(node.outputs.outputs, ctx["resNames"]))
+            for extra in ad["extraVarNames"]:
+                var_names[argument(spox_type({"t": [TP.FLOAT, [2]]}))] = extra
+            base = node.model
+            rec: dict[str, Any] = {"called": False, "raised": None, "result": None, "version": None}
+            real_conv = onnx.version_converter.convert_version
+
+            def spy(model, version):
+                rec["called"] = True
+                rec["version"] = version
+                try:
+                    rec["result"] = real_conv(model, version)
+                except Exception as e:  # noqa: BLE001
+                    rec["raised"] = type(e).__name__
+                    raise
+                return rec["result"]
+
+            adapt_fn = A.adapt_inline
+        except Exception as e:  # noqa: BLE001
+            out["unobservable"] = f"adapt_inline: {type(e).__name__}: {e}"
+            return out
+        onnx.version_converter.convert_version = spy
+        try:
+            try:
+                got = adapt_fn(node, list(nodes), {"": ad["target"]}, var_names, ctx["nodeName"])
+                out["adapt"] = {"nodes": [L.abstract_node(n, lits) for n in got]}
+            except Exception as e:  # noqa: BLE001
+                out["adapt"] = type(e).__name__
+        finally:
+            onnx.version_converter.convert_version = real_conv
+        out["adapt_called"] = rec["called"]
+        out["adapt_conv_raised"] = rec["raised"]
+        out["adapt_version"] = rec["version"]
+        out["adapt_target"] = ad["target"]
+        if rec["result"] is not None:
+            out["adapt_converted"] = L.abstract_graph(rec["result"].graph, lits)
+        try:
+            out["adapt_model_restored"] = node.model is base
+        except Exception:  # noqa: BLE001
+            pass
     return out
 
 
@@ -337,6 +389,22 @@ def compare_stages(real: dict, model: dict, all_distinct: bool = True) -> Option
         return None if re_ == me else f"emit: real {re_ if isinstance(re_, str) else 'ok'} model {me if isinstance(me, str) else 'ok'}"
     if re_["nodes"] != me["nodes"]:
         return f"emitted nodes: real {json.dumps(re_['nodes'])[:600]} model {json.dumps(me['nodes'])[:600]}"
+    ra, ma = real.get("adapt"), model.get("adapt")
+    if real.get("adapt_called") and real.get("adapt_version") != real.get("adapt_target"):
+        return f"adapt: converter asked for version {real.get('adapt_version')}, the target opset is {real.get('adapt_target')}"
+    if ra is not None and not real.get("adapt_conv_raised"):
+        if isinstance(ra, str) or isinstance(ma, str):
+            if ra != ma:
+                return f"adapt: real {ra if isinstance(ra, str) else 'ok'} model {ma if isinstance(ma, str) else 'ok'}"
+        elif ma is None:
+            return "adapt: model gave no answer"
+        else:
+            if bool(real.get("adapt_called")) != bool(ma["converts"]):
+                return f"adapt decision: real converter called={real.get('adapt_called')} model converts={ma['converts']}"
+            if ra["nodes"] != ma["nodes"]:
+                return f"adapt nodes: real {json.dumps(ra['nodes'])[:500]} model {json.dumps(ma['nodes'])[:500]}"
+        if real.get("adapt_model_restored") is False:
+            return "adapt_inline left node.model swapped"
     for sp in ("var", "node"):
         if sorted(set(me[sp]["used"])) != re_[sp]["used"]:
             return f"{sp} names after: real {re_[sp]['used']} model {sorted(set(me[sp]['used']))}"
@@ -353,7 +421,7 @@ class Infra(Exception):
     """Trouble of the harness / third-party runtime on m itself (exit 2, never a verdict)."""
 
 
-FORMS = ["once", "twice", "shared-callable", "chained", "if-body", "mixed-opset", "nested-if-twice"]
+FORMS = ["once", "twice", "shared-callable", "chained", "if-body", "mixed-opset", "nested-if-twice", "loop-body", "history"]
 
 
 def input_values(rng: random.Random, m: onnx.ModelProto) -> dict:
@@ -395,11 +463,37 @@ def classify_build_error(m: onnx.ModelProto, e: BaseException) -> str:
     if cls == "ScopeError":
         return "name-clash:ScopeError"
     opset = next((o.version for o in m.opset_import if o.domain in ("", "ai.onnx")), 17)
-    if cls == "ValidationError" and opset < 14:
+    if cls == "ValidationError" and opset < 14 and ("Unrecognized attribute" in str(e) or "No Op registered" in str(e)):
         return "old-opset-not-converted:ValidationError"
     if any(o.name in ins for o in m.graph.output):
         return f"passthrough-output:{cls}"
     return f"build-raises:{cls}"
+
+
+def bump(v: int, x):
+    """The value of x, through an operator that exists only from opset v on (forces the target opset)."""
+    op = L.opset_module(v)
+    if v in (19, 21):
+        return op.identity(x)
+    if v in (18, 20):
+        return op.reduce_max(x, None, keepdims=1, noop_with_empty_axes=1)
+    return x
+
+
+def chainable(m: onnx.ModelProto, float_ins, float_outs) -> bool:
+    """Feeding the first float output back into the float inputs is a legal call."""
+    if not float_outs or not float_ins:
+        return False
+    _, od = L.type_json(next(o for o in m.graph.output if o.name == float_outs[0]).type)["t"]
+    for i in m.graph.input:
+        if i.name in float_ins:
+            _, idims = L.type_json(i.type)["t"]
+            if od is not None and idims is not None and (
+                len(od) != len(idims)
+                or any(isinstance(a, int) and isinstance(b, int) and a != b for a, b in zip(od, idims))
+            ):
+                return False
+    return True
 
 
 def oracle_compose(m: onnx.ModelProto, form: str, seed: int) -> list[tuple[str, str]]:
@@ -456,7 +550,7 @@ def oracle_compose(m: onnx.ModelProto, form: str, seed: int) -> list[tuple[str, 
                 expected = {f"res_{k}": d[o] for k, o in enumerate(outs)}
                 declared = [L.strip_symbols(L.type_json(o.type)) for o in m.graph.output]
                 got = [public_type_json(r[o].type) for o in outs]
-                if list(r.keys()) != outs:
+                if list(r.keys()) != list(dict.fromkeys(outs)):
                     fails.append(("result-names", f"returned keys {list(r.keys())}, model outputs {outs}"))
                 elif got != declared:
                     fails.append(("output-type-mismatch", f"returned types {got}, declared {declared}"))
@@ -470,23 +564,65 @@ def oracle_compose(m: onnx.ModelProto, form: str, seed: int) -> list[tuple[str, 
                 for k, o in enumerate(outs):
                     results[f"res_a{k}"], expected[f"res_a{k}"] = r1[o], d1[o]
                     results[f"res_b{k}"], expected[f"res_b{k}"] = r2[o], d2[o]
+            elif form in ("chained", "loop-body") and not chainable(m, float_ins, float_outs):
+                return fails
+            elif form == "loop-body":
+                # the callable inside a Loop body: state x -> first float output of m(x, ..outer args..)
+                f = inline(m)
+                link = float_outs[0]
+                trips = rng.randrange(1, 4)
+                x0 = A[float_ins[0]]
+                cur = vals1[float_ins[0]]
+                for _ in range(trips):
+                    cur = direct({n: (cur if n in float_ins else vals1[n]) for n in ins})[link]
+                    if np.asarray(cur).shape != (2,):
+                        return fails  # the state changes shape at run time: not a legal Loop state here
+
+                def body(i, c, x):
+                    am = {n: (x if n in float_ins else A[n]) for n in ins}
+                    return [op.const(np.array(True)), apply(f, am, len(ins), [])[link]]
+
+                (final,) = op.loop(op.const(np.array(trips, np.int64)), None, v_initial=[x0], body=body)
+                # build() wants a known shape for results; Loop's carried output may lose it
+                final = op.reshape(final, op.const(np.array([2], np.int64)))
+                results["res_final"], expected["res_final"] = final, np.asarray(cur).reshape(2)
+            elif form == "history":
+                # the same callable (same private copy) built into several programs with different
+                # opset surroundings, one after the other; the first program rebuilt at the end
+                f = inline(m)
+                d = direct(vals1, omit)
+                first_bytes = None
+                r = apply(f, A, npos, omit)  # ONE Inline node, built into several programs
+                for step, v2 in enumerate([None, 18, 21, 19, None]):
+                    res = {}
+                    for k, o in enumerate(outs):
+                        if v2 is not None and o in float_outs:
+                            res[f"res_{k}"] = bump(v2, r[o])
+                        else:
+                            res[f"res_{k}"] = r[o]
+                    built = build(dict(outer_in), res)
+                    got = dict(zip([o.name for o in built.graph.output], ort_run(built, feeds)))
+                    for k, o in enumerate(outs):
+                        exp = d[o]
+                        if not same(got[f"res_{k}"], exp):
+                            fails.append((f"result-mismatch:history", f"history step {step} (surroundings {v2}): output {k}: inlined {np.asarray(got[f'res_{k}']).tolist()} but m computes {np.asarray(exp).tolist()}"))
+                            break
+                    if v2 is None:
+                        b = built.SerializeToString(deterministic=True)
+                        if first_bytes is None:
+                            first_bytes = b
+                        elif b != first_bytes:
+                            fails.append(("history-dependent-build", "the same program (same Vars) built before and after other builds around the same Inline node differs"))
+                if m.SerializeToString(deterministic=True) != before:
+                    fails.append(("m-modified", "history: the caller's model changed"))
+                return fails
             elif form == "chained":
-                if not float_outs or not float_ins:
-                    return fails
-                # chaining is only a legal call if the linked output's declared type fits the inputs
-                _, od = L.type_json(next(o for o in m.graph.output if o.name == float_outs[0]).type)["t"]
-                for i in m.graph.input:
-                    if i.name in float_ins:
-                        _, idims = L.type_json(i.type)["t"]
-                        if od is not None and idims is not None and (
-                            len(od) != len(idims)
-                            or any(isinstance(a, int) and isinstance(b, int) and a != b for a, b in zip(od, idims))
-                        ):
-                            return fails
                 f = inline(m)
                 r1 = apply(f, A, npos, omit)
                 d1 = direct(vals1, omit)
                 link = float_outs[0]
+                if np.asarray(d1[link]).shape != (2,):
+                    return fails  # feeding it back is not a legal call at run time
                 A2 = {n: (r1[link] if n in float_ins else A[n]) for n in ins}
                 v2 = {n: (d1[link] if n in float_ins else vals1[n]) for n in ins}
                 r2 = apply(f, A2, len(ins), [])
@@ -527,7 +663,7 @@ def oracle_compose(m: onnx.ModelProto, form: str, seed: int) -> list[tuple[str, 
                 d = direct(vals1, omit)
                 for k, o in enumerate(outs):
                     if o in float_outs:
-                        results[f"res_{k}"], expected[f"res_{k}"] = op.add(r[o], r[o]), d[o] + d[o]
+                        results[f"res_{k}"], expected[f"res_{k}"] = bump(outer_v, r[o]), d[o]
                     else:
                         results[f"res_{k}"], expected[f"res_{k}"] = r[o], d[o]
             outer = build(outer_in, results)
@@ -701,6 +837,24 @@ def fixed_corner_models() -> list[tuple[onnx.ModelProto, dict]]:
     rs = mk([H.make_node("ReduceSum", ["x"], ["y"], axes=[0], keepdims=1)], [f2("x")], [f2("y", (1,))], opset=12)
     rs.ir_version = 7
     out.append((rs, ["opset-12", "no-chain"]))
+    rm = mk([H.make_node("ReduceMean", ["x"], ["y"], axes=[0], keepdims=1)], [f2("x")], [f2("y", (1,))], opset=13)
+    out.append((rm, ["opset-13", "no-chain", "attribute-becomes-input-at-18"]))
+    # duplicate output names are accepted by onnx.checker and onnxruntime (duplicate inputs are not)
+    out.append((mk([H.make_node("Abs", ["a"], ["y"]), H.make_node("Neg", ["y"], ["w"])], [f2("a")], [f2("y"), f2("w"), f2("y")]),
+                ["duplicate-output-names", "oracle-only"]))
+    # Loop body holding an If that captures values of m's top level (two levels up)
+    bvi = lambda n, e, sh: H.make_tensor_value_info(n, e, sh)  # noqa: E731
+    then_g = H.make_graph([H.make_node("Add", ["xi", "x"], ["t"])], "then_g", [], [f2("t")])
+    else_g = H.make_graph([H.make_node("Mul", ["xi", "w"], ["t"])], "else_g", [], [f2("t")])
+    body_g = H.make_graph([H.make_node("Identity", ["ci"], ["co"]),
+                           H.make_node("If", ["c"], ["u"], then_branch=then_g, else_branch=else_g),
+                           H.make_node("Sub", ["u", "x"], ["xo"])], "loop_body",
+                          [bvi("it", TP.INT64, []), bvi("ci", TP.BOOL, []), f2("xi")], [bvi("co", TP.BOOL, []), f2("xo")])
+    out.append((mk([H.make_node("Constant", [], ["M"], value=NH.from_array(np.array(3, np.int64), "M")),
+                    H.make_node("Loop", ["M", "", "x"], ["y"], body=body_g)],
+                   [f2("x"), bvi("c", TP.BOOL, [])], [f2("y")],
+                   initializer=[NH.from_array(np.array([2, 0.5], np.float32), "w")]),
+                ["if-inside-loop", "loop-body-captures-outer", "initializer"]))
     sp = H.make_sparse_tensor(NH.from_array(np.array([3.0], np.float32), "s"), NH.from_array(np.array([1], np.int64), ""), [2])
     out.append((mk([H.make_node("Add", ["x", "s"], ["y"])], [f2("x")], [f2("y")], opset=14, sparse_initializer=[sp]),
                 ["sparse-initializer", "opset-14"]))
@@ -711,7 +865,7 @@ def make_models(ck: core.Check, n_hand: int, n_spox: int):
     rng = ck.rng
     models = list(fixed_corner_models())
     dropped = 0
-    while len(models) < 8 + n_hand:
+    while len(models) < 11 + n_hand:
         m, meta = L.HandGen(rng).model()
         if valid(m, meta["runnable"], rng):
             models.append((m, meta))
@@ -798,7 +952,7 @@ def run(ck: core.Check):
         ck.leanchecker(["SpoxModel.Props.C08"])
 
     rng = ck.rng
-    n_hand, n_spox = ck.pick((220, 80), (2500, 800))
+    n_hand, n_spox = ck.pick((220, 80), (1500, 500))
     models, snaps, dropped = make_models(ck, n_hand, n_spox)
     ck.log(f"{len(models)} models generated ({dropped} invalid candidates dropped)")
     feature_hist: dict[str, int] = {}
@@ -809,10 +963,12 @@ def run(ck: core.Check):
     # ---- tie H: stages of inline(m)(call) + to_onnx, model vs real
     lits = L.Lits()
     reqs, reals, descr = [], [], []
-    n_forms = ck.pick(4, 8)
+    n_forms = ck.pick(4, 6)
     with warnings.catch_warnings():
         warnings.simplefilter("ignore")
         for mi, (_, meta) in enumerate(models):
+            if "oracle-only" in meta["features"]:
+                continue
             m = fresh(snaps[mi])
             variants = [m]
             if mi % 7 == 0:
@@ -824,8 +980,16 @@ def run(ck: core.Check):
                         real = real_stages(mv, call, ctx, lits)
                     except Exception as e:  # noqa: BLE001
                         real = {"prepare": {}, "unobservable": f"stages: {type(e).__name__}: {e}"}
-                    reqs.append({"model": L.abstract_model(mv, lits), "call": call,
-                                 "ctx": {k: v for k, v in ctx.items() if not k.startswith("_")}})
+                    rq = {"model": L.abstract_model(mv, lits), "call": call,
+                          "ctx": {k: v for k, v in ctx.items() if not k.startswith("_")}}
+                    if "adapt" in real:
+                        rq["adapt"] = {
+                            "varNames": list(dict.fromkeys(ctx["argNames"] + ctx["resNames"] + ctx["_adapt"]["extraVarNames"])),
+                            "imports": [o.version for o in mv.opset_import if o.domain in ("", "ai.onnx")],
+                            "target": ctx["_adapt"]["target"],
+                            "converted": real.get("adapt_converted"),
+                        }
+                    reqs.append(rq)
                     reals.append(real)
                     descr.append((mi, call, ctx))
     try:
@@ -836,6 +1000,8 @@ def run(ck: core.Check):
     mism = 0
     outcomes: dict[str, int] = {}
     unobs: dict[str, int] = {}
+    adapt_hist: dict[str, int] = {}
+    pf_hist: dict[str, int] = {}
     for (mi, call, ctx), real, ans in zip(descr, reals, answers):
         if "unobservable" in real:
             facet = real["unobservable"].split(":")[0]
@@ -850,6 +1016,14 @@ def run(ck: core.Check):
             real["call"] if isinstance(real.get("call"), str) else (
                 real["emit"] if isinstance(real.get("emit"), str) else "emitted"))
         outcomes[oc] = outcomes.get(oc, 0) + 1
+        if "adapt" in real:
+            ak = "converter-raised" if real.get("adapt_conv_raised") else ("converted" if real.get("adapt_called") else "kept")
+            adapt_hist[ak] = adapt_hist.get(ak, 0) + 1
+        if isinstance(ans, dict) and ans.get("prefixFree") and real.get("emit") == "ScopeError":
+            d_pf = "prefix-free scope but the real to_onnx raised ScopeError"
+            ck.broken("correspondence", "C08 rename_total", d_pf)
+        if isinstance(ans, dict) and "prefixFree" in ans:
+            pf_hist[str(ans["prefixFree"])] = pf_hist.get(str(ans["prefixFree"]), 0) + 1
         if real.get("copy_is_m"):
             d = d or "inline() works on the caller's model object itself"
         if d:
@@ -861,10 +1035,12 @@ def run(ck: core.Check):
     ck.cov["correspondence_mismatches"] = mism
     ck.cov["correspondence_outcomes"] = outcomes
     ck.cov["correspondence_unobservable"] = unobs
+    ck.cov["adapt_correspondence"] = adapt_hist
+    ck.cov["scope_prefix_free"] = pf_hist
 
     # ---- evaluator correspondence: Inline.evalModel (integer interpreter) vs onnxruntime
     ev_reqs, ev_expect = [], []
-    n_eval = ck.pick(200, 2000)
+    n_eval = ck.pick(200, 1500)
     tries = 0
     while len(ev_reqs) < n_eval and tries < 20 * n_eval:
         tries += 1
@@ -891,7 +1067,48 @@ def run(ck: core.Check):
     ck.cov["evaluator_cases"] = len(ev_reqs)
     ck.cov["evaluator_mismatches"] = ev_mism
 
-    # ---- model-free oracle
+    # ---- model-free oracle (while it runs, observe the scopes the build hands to _Inline.to_onnx:
+    #      rename_total's hypothesis "nothing visible or counted starts with <node>__")
+    scope_obs = {"to_onnx_calls": 0, "prefix_free": 0}
+    restore_hook = None
+    try:
+        import spox._inline as _I
+
+        _orig_to_onnx = _I._Inline.to_onnx
+
+        def _observed(self, scope, *a, **k):
+            try:
+                pre = scope.node[self] + "__"
+                names: set = set()
+                for sp in (scope.var, scope.node):
+                    q = sp
+                    while q is not None:
+                        names |= {n for n in q.reserved if isinstance(n, str)} | {n for n in q.of_name if isinstance(n, str)}
+                        names |= set(q.base_name_counters)
+                        q = q.parent
+                scope_obs["to_onnx_calls"] += 1
+                scope_obs["prefix_free"] += int(not any(n.startswith(pre) for n in names))
+            except Exception as e:  # noqa: BLE001
+                scope_obs["unobservable"] = f"{type(e).__name__}: {e}"
+            return _orig_to_onnx(self, scope, *a, **k)
+
+        _I._Inline.to_onnx = _observed
+        restore_hook = lambda: setattr(_I._Inline, "to_onnx", _orig_to_onnx)  # noqa: E731
+    except Exception as e:  # noqa: BLE001
+        scope_obs["unobservable"] = f"{type(e).__name__}: {e}"
+    try:
+        _oracle_phase(ck, models, snaps, rng, scope_obs)
+    finally:
+        if restore_hook:
+            restore_hook()
+    if scope_obs.get("to_onnx_calls") and scope_obs["prefix_free"] != scope_obs["to_onnx_calls"]:
+        ck.notes.append(f"{scope_obs['to_onnx_calls'] - scope_obs['prefix_free']} build scopes were not free of the node's prefix family (rename_total does not apply to them)")
+    ck.cov["build_scopes_observed"] = scope_obs
+    ck.cov.update({"models": len(models), "invalid_candidates_dropped": dropped, "feature_histogram": feature_hist})
+    _finish_evidence(ck)
+
+
+def _oracle_phase(ck, models, snaps, rng, scope_obs):
     form_hist: dict[str, int] = {}
     n_oracle = 0
     for mi, (m, meta) in enumerate(models):
@@ -909,7 +1126,7 @@ def run(ck: core.Check):
                                        "summary": L.summary(m), "features": meta["features"]})
             ck.count(("build-only", mi))
             continue
-        forms = list(FORMS) if (ck.thorough or meta["kind"] == "corner") else ["once"] + rng.sample(FORMS[1:], 2)
+        forms = list(FORMS) if (ck.thorough or meta["kind"] == "corner") else ["once"] + rng.sample(FORMS[1:], 3)
         for form in forms:
             if form == "chained" and "no-chain" in meta["features"]:
                 continue
@@ -922,10 +1139,10 @@ def run(ck: core.Check):
                 ck.failure(key, what, {"kind": "compose", "form": form, "model": L.to_b64(m), "seed": seed1,
                                        "summary": L.summary(m), "features": meta["features"]})
         ck.sample({"model": L.summary(m), "features": meta["features"]}, 4)
-    ck.cov.update({
-        "models": len(models), "invalid_candidates_dropped": dropped, "feature_histogram": feature_hist,
-        "oracle_compositions": n_oracle, "oracle_forms": form_hist,
-    })
+    ck.cov.update({"oracle_compositions": n_oracle, "oracle_forms": form_hist})
+
+
+def _finish_evidence(ck):
     ck.exhaustive = False
     ck.rule = (
         "seeded random: hand-built corner-shape models (default-valued / unused inputs, outputs that are inputs or "
